@@ -301,4 +301,12 @@ example : (∀ p ∈ [[[Instr.getSet 5 (.ok 1), .getSet 2 (.ok 2), .exit, .exit]
       Hier (fun k => if k = 5 then 0 else if k = 2 then 1 else 2) p = true) ∧
     Hier id [[Instr.getSet 5 (.ok 1), .getSet 2 (.ok 2), .exit, .exit]] = false := by decide
 
+/-- any sequence of OpenmlSource reads (data-id or task-id sources; cached before / by a peer during
+`acquire()` / downloaded through `_http_request`; ending normally, raising or abandoned) against a
+semaphore with at least one permit never has to wait for ever and leaves the number of free permits unchanged -/
+theorem semaphore_sequence_balanced (p : Nat) (hp : 1 ≤ p) (rs : List (Bool × Bool × Bool)) : semRun p rs = some p :=
+  semaphore_sequence_balanced' p hp rs
+
+example : semRun 3 [(true, false, true), (true, false, false), (true, true, true), (false, false, false)] = some 3 := by decide
+
 end Coba.C19
